@@ -175,7 +175,10 @@ def classify_reject(text, mode, rep, pt):
         if r[0] <= off and (cand is None or r[0] >= cand["_r"][0]):
             # innermost / latest statement starting at or before the error
             line_start = max(b.rfind(b"\n", 0, r[0]), b.rfind(b"\r", 0, r[0])) + 1
-            if b[line_start:r[0]].strip(b" \t\x0c") == b"":
+            lead = b[line_start:r[0]]
+            if line_start == 0 and lead.startswith(b"\xef\xbb\xbf"):
+                lead = lead[3:]   # a byte-order mark is layout
+            if lead.strip(b" \t\x0c") == b"":
                 cand = s
     if cand is not None:
         r = cand["_r"]
